@@ -274,9 +274,9 @@ func init() {
 	props["C10"] = propCheck{needCLI: true, run: func(env *Env, rep *Report) {
 		env.InitBaseline()
 		r := NewRand(env.Seed, "C10")
-		npool, nhist, steps := 120, 16, 200
+		npool, nhist, steps := 230, 27, 200
 		if env.Tier == "thorough" {
-			npool, nhist, steps = 300, 64, 5000
+			npool, nhist, steps = 420, 72, 5000
 		}
 		pool, sib := buildC10Pool(env, r, npool)
 		// references: every program in a fresh process, twice, with different environment, cwd, output name and junk in the destination
